@@ -70,23 +70,30 @@ Definition exq (jh : option nat) : query Expr.expr :=
   {| q_kind := QSelect [IExpr (EFld TA 0); IStarB]; q_where := None;
      q_join := Some {| j_kind := JLeft; j_lhs := [LFld 0]; j_rhs := [RFld 0]; j_bhdr := jh |};
      q_group := None; q_order := None; q_distinct := DNo; q_top := None |}.
+Definition exA : list rec := [[AStr [120%N]]; [AStr [121%N]]].
+Definition ex_ih : list str := [[120%N]].
+Definition ex_jh : list str := [[110%N]; [107%N]; [109%N]].
 Example C07_left_join_nonvacuous :
-  let ih := [[120%N]] in let jh := [[110%N]; [107%N]; [109%N]] in
-  let A := [[AStr [120%N]]; [AStr [121%N]]] in
-  output_header (Some ih) (Some jh) (HQSelect [HField TA 0; HStarB] false) = HSome ([120%N] :: jh)
-  /\ (exists jm, join_map_of _ (exq (Some 3)) [] = Some jm
-       /\ all_offers _ (eval Py) (exq (Some 3)) jm 0 A
-          = Ok [([], [VA (AStr [120%N]); VA ANone; VA ANone; VA ANone]); ([], [VA (AStr [121%N]); VA ANone; VA ANone; VA ANone])])
-  /\ (exists jm, join_map_of _ (exq (Some 3)) [[AStr [121%N]; AStr [112%N]; AStr [113%N]]] = Some jm
-       /\ all_offers _ (eval Py) (exq (Some 3)) jm 0 A
-          = Ok [([], [VA (AStr [120%N]); VA ANone; VA ANone; VA ANone]); ([], [VA (AStr [121%N]); VA (AStr [121%N]); VA (AStr [112%N]); VA (AStr [113%N])])])
-  /\ (exists jm, join_map_of _ (exq None) [] = Some jm
-       /\ all_offers _ (eval Py) (exq None) jm 0 A = Ok [([], [VA (AStr [120%N])]); ([], [VA (AStr [121%N])])]).
+  output_header (Some ex_ih) (Some ex_jh) (HQSelect [HField TA 0; HStarB] false) = HSome ([120%N] :: ex_jh)
+  /\ Forall (fun a => length a = length ex_ih) exA
+  /\ join_map_of _ (exq (Some 3)) [] = Some (Some {| m_buckets := []; m_maxlen := 3 |})
+  /\ all_offers _ (eval Py) (exq (Some 3)) (Some {| m_buckets := []; m_maxlen := 3 |}) 0 exA
+     = Ok [([], [VA (AStr [120%N]); VA ANone; VA ANone; VA ANone]); ([], [VA (AStr [121%N]); VA ANone; VA ANone; VA ANone])]
+  /\ (let B := [[AStr [121%N]; AStr [112%N]; AStr [113%N]]] in
+      Forall (fun f => length f = length ex_jh) B
+      /\ match join_map_of _ (exq (Some 3)) B with
+         | Some jm => all_offers _ (eval Py) (exq (Some 3)) jm 0 exA
+                      = Ok [([], [VA (AStr [120%N]); VA ANone; VA ANone; VA ANone]);
+                            ([], [VA (AStr [121%N]); VA (AStr [121%N]); VA (AStr [112%N]); VA (AStr [113%N])])]
+         | None => False
+         end)
+  /\ join_map_of _ (exq None) [] = Some (Some {| m_buckets := []; m_maxlen := 0 |})
+  /\ all_offers _ (eval Py) (exq None) (Some {| m_buckets := []; m_maxlen := 0 |}) 0 exA
+     = Ok [([], [VA (AStr [120%N])]); ([], [VA (AStr [121%N])])].
 Proof.
-  cbv zeta. split; [vm_compute; reflexivity|].
-  split; [eexists; split; vm_compute; reflexivity|].
-  split; [eexists; split; vm_compute; reflexivity|].
-  eexists; split; vm_compute; reflexivity.
+  split; [vm_compute; reflexivity|]. split; [repeat constructor|]. split; [vm_compute; reflexivity|].
+  split; [vm_compute; reflexivity|]. split; [split; [repeat constructor | vm_compute; reflexivity]|].
+  split; vm_compute; reflexivity.
 Qed.
 Print Assumptions C07_left_join_nonvacuous.
 
